@@ -35,6 +35,22 @@ TABLE = {
               "a nested product that carries a coefficient other than 1 AND a non-trivial coefficient accumulated before it: 3*(2*D) = 2*D, (3*A)*(2*B) = 2*(A*B)", ""),
     "C30-1": ("C30", "solve_poly_quartic: `aby4 = a/4` renamed to `shift = -a/4`, one use in the g == 0 branch converted to sub(r, shift) instead of add(r, shift)",
               "a quartic with non-zero x**3 coefficient and constant term whose depressed form has zero constant term (the mean of the roots, -a/4, is a root): (x-1)(x-2)**2(x+1)", ""),
+    "C31-1": ("C31", "series_sinh/series_cosh pass s instead of s - c to series_exp although the c != 0 branch recombines with the addition formula",
+              "a sinh/cosh whose argument has a NON-ZERO constant term at the expansion point (sinh(x+1), cosh(cos(x)))", ""),
+    "C32-1": ("C32", "_sqrt_mod_prime brute-force search shortened to i < p/2 (skips i = (p-1)/2); _nthroot_mod1 ignores the return value",
+              "a prime p = 1 (mod 8), p < 10000, n with gcd(n, p-1) = 2, and a = 1/4 (mod p) (roots exactly +-(p-1)/2): nthroot_mod(13, 2, 17) = 0", ""),
+    "C34-1": ("C34", "IntegerVisitor::bvisit(Mul) walks the dictionary and accepts base**exp when exp is an integer NOT KNOWN to be negative (should be known non-negative)",
+              "a product with a factor x**y, x and y assumed integer with no sign information on y: is_integer(x**y*z) = true (x=2, y=-1, z=3 gives 3/2)", ""),
+    "C35-1": ("C35", "SimplifyVisitor::simplify_pow rewrites csc/sec/cot to a NEGATIVE numeric power (was: exactly -1) as sin/cos/tan to the positive power",
+              "a negative NON-INTEGER exponent (-1/2, -3/2) on csc/sec/cot and a point where the matching sin/cos/tan is negative (branch cut: the value flips to its conjugate)", ""),
+    "C36-1": ("C36", "RealImagVisitor::bvisit(Pow) integer-exponent branches merged: |z|^2 is computed AFTER pow_number overwrote real_/imag_",
+              "as_real_imag of a Pow with integer exponent <= -2 whose base has a non-zero imaginary part and is not a plain Complex number (sqrt(2)+I, sin(2+I))", ""),
+    "C42-1": ("C42", "mapbasicbasic_insert uses std::map::insert (does not overwrite) instead of operator[] assignment",
+              "two mapbasicbasic_insert calls with structurally equal keys and different values, followed by mapbasicbasic_get or basic_subs", ""),
+    "C43-1": ("C43", "mp_boost.cpp mp_fdiv_qr/mp_cdiv_qr copy only the dividend; the post-division fix-up reads the divisor b after the division",
+              "the Boost.Multiprecision build and a call where the REMAINDER aliases the DIVISOR (mp_fdiv_r(t, a, t) in _nthroot_mod_prime_power): nthroot_mod(-7, 2, 16)", ""),
+    "C44-1": ("C44", "MathML xml_escape rewritten in place and resumes the search at pos + 5 (length of &amp;) after every replacement (&lt; &gt; have 4)",
+              "a Symbol/FunctionSymbol name with < or > IMMEDIATELY followed by < or & (n<<2, x<&y): the second character is written raw", ""),
     "C05-1": ("C05", "Complex::powcomp reduces the exponent with C++ `other.as_int() % 4` instead of the floored mod_f(other, 4)",
               "a NEGATIVE integer exponent not divisible by 4 on a pure-imaginary Gaussian rational (C++ % truncates towards zero, "
               "so rem is negative and falls into the wrong branch); positive exponents are unaffected", ""),
